@@ -219,7 +219,9 @@ func (c *Ctx) SignaturePolarity() []core.Ob {
 	if vh != nil {
 		s := polOb(c, "sign.verifyHash:true-only-on-nil", "verifyHash returns true only when PublicKey.VerifyMessage returned nil", vh)
 		s.Armed = false
-		isVM := func(cl *ssa.Call) bool { return strings.HasSuffix(calleeName(cl.Common()), "yggdrasil/user.(PublicKey).VerifyMessage") }
+		isVM := func(cl *ssa.Call) bool {
+			return strings.HasSuffix(calleeName(cl.Common()), "yggdrasil/user.(PublicKey).VerifyMessage")
+		}
 		if ok, why, _ := boolReturnsNilTest(vh, isVM); !ok {
 			s.Status, s.Got = core.Violated, why
 		}
